@@ -226,6 +226,56 @@ func c17PrefixUnderLock(c *Check, a *Anchors) {
 			}
 		}
 	}
+	// the flow that tracks Prefixed.mutex in one function
+	lockFlow := func(fb *FuncBody) *Flow {
+		info := fb.Info()
+		f := NewFlow(c.P, fb, func(call *ast.CallExpr, obj types.Object) string {
+			if sel, ok := ast.Unparen(call.Fun).(*ast.SelectorExpr); ok && fieldSel(info, sel.X, PkgOutput, "Prefixed", "mutex") {
+				if fn, ok := obj.(*types.Func); ok {
+					return "mu." + fn.Name()
+				}
+			}
+			return ""
+		})
+		f.NoInline = true
+		f.Effect = func(label string, call *ast.CallExpr, st Facts) {
+			switch label {
+			case "mu.Lock":
+				st["held:mu"] = true
+			case "mu.Unlock":
+				delete(st, "held:mu")
+			}
+		}
+		f.Run()
+		return f
+	}
+	// callersHold: the unexported function is only called with Prefixed.mutex held (a helper extracted from a critical section)
+	var callersHold func(fb *FuncBody, depth int) bool
+	callersHold = func(fb *FuncBody, depth int) bool {
+		if fb == nil || fb.Obj == nil || fb.Obj.Exported() || depth < 0 {
+			return false
+		}
+		sites := 0
+		for _, cb := range c.P.BodiesIn(PkgOutput) {
+			var calls []*ast.CallExpr
+			for _, call := range callsIn(cb, false) {
+				if fn, ok := callee(cb.Info(), call).(*types.Func); ok && fn == fb.Obj {
+					calls = append(calls, call)
+				}
+			}
+			if len(calls) == 0 {
+				continue
+			}
+			cf := lockFlow(cb)
+			for _, call := range calls {
+				sites++
+				if !cf.At[call].Has("held:mu") && !callersHold(cb.Root(), depth-1) {
+					return false
+				}
+			}
+		}
+		return sites > 0
+	}
 	for _, fb := range c.P.BodiesIn(PkgOutput) {
 		info := fb.Info()
 		touches := false
@@ -304,7 +354,11 @@ func c17PrefixUnderLock(c *Check, a *Anchors) {
 			// skip inner nodes when an enclosing recorded node already covers them: key by position
 			n++
 			key := ordinal(ord, what+"@"+fnDisplay(fb))
-			c.Decide(st.Has("held:mu"), "prefix-under-lock", key, node.Pos(), "under Prefixed.mutex",
+			held := st.Has("held:mu")
+			if !held && fb.Decl != nil && callersHold(fb, 1) {
+				held = true // the function is a helper that every caller invokes inside its critical section
+			}
+			c.Decide(held, "prefix-under-lock", key, node.Pos(), "under Prefixed.mutex",
 				what+" in "+fnDisplay(fb)+" happens without Prefixed.mutex held on every path: lines of concurrently running commands can be torn (or the colour map is accessed unsynchronised)")
 		}
 	}
@@ -313,22 +367,35 @@ func c17PrefixUnderLock(c *Check, a *Anchors) {
 
 func c17CloserAlwaysCalled(c *Check, a *Anchors) {
 	c.Rule("closer-always-called", "in the command runner the closer returned by WrapWriter is called after RunCommand on every path, with RunCommand's own error value (not a rewritten one); the stdout/stderr handed to RunCommand are the writers returned by the WrapWriter call of the same invocation")
-	// the function that wraps the writers: the command runner, or the helper it hands the shell execution to
-	fb := a.CmdRunner
-	for _, g := range c.P.groupOf(a.CmdRunner, 2) {
-		if g.Pkg.PkgPath != PkgTask || g == a.RunTask {
-			continue
+	// the function that runs the command with the wrapped writers: the command runner, or the helper it hands the shell
+	// execution to; the wrap itself may be obtained through a helper of the package that returns WrapWriter's results
+	fb := a.ShellExec
+	if fb == nil {
+		fb = a.CmdRunner
+	}
+	isWrap := func(obj types.Object) bool {
+		fn, ok := obj.(*types.Func)
+		if !ok || fn.Pkg() == nil {
+			return false
 		}
-		for _, call := range callsIn(g, false) {
-			if fn, ok := callee(g.Info(), call).(*types.Func); ok && fn.Name() == "WrapWriter" && fn.Pkg() != nil && fn.Pkg().Path() == PkgOutput {
-				fb = g
+		if fn.Name() == "WrapWriter" && fn.Pkg().Path() == PkgOutput {
+			return true
+		}
+		h := c.P.DeclOf(fn)
+		if h == nil || h.Decl == nil || h.Pkg.PkgPath != PkgTask || h == fb {
+			return false
+		}
+		for _, call := range callsIn(h, false) {
+			if wf, ok := callee(h.Info(), call).(*types.Func); ok && wf.Name() == "WrapWriter" && wf.Pkg() != nil && wf.Pkg().Path() == PkgOutput {
+				return true
 			}
 		}
+		return false
 	}
 	c.Fn(fb)
 	info := fb.Info()
 	f := NewFlow(c.P, fb, func(call *ast.CallExpr, obj types.Object) string {
-		if fn, ok := obj.(*types.Func); ok && fn.Name() == "WrapWriter" && fn.Pkg() != nil && fn.Pkg().Path() == PkgOutput {
+		if isWrap(obj) {
 			return "wrap"
 		}
 		if obj == a.RunCommandObj {
